@@ -55,7 +55,7 @@ func VerifH_C05_handle_request() {
 
 	method := verif.StringN([2]int{3, 4}[verif.Choose(2)])
 	transport := verif.StringN([3]int{7, 9, 3}[verif.Choose(3)])
-	eio := verif.String(1)
+	eio := verif.String(2)
 	sidKind := verif.Choose(4) // absent, unknown, the polling session, present but empty (= no session named)
 	ctx, w := newCtx(method, "/engine.io/")
 	ctx.Query().Set("transport", transport)
